@@ -110,6 +110,16 @@ type ReadResourceResult struct {
 }
 
 // ResourceUpdatedNotification represents a notification that a resource has been updated.
+// MarshalJSON encodes nil Contents as an empty array: "contents" is an array in the MCP schema.
+func (r ReadResourceResult) MarshalJSON() ([]byte, error) {
+	type plain ReadResourceResult
+	p := plain(r)
+	if p.Contents == nil {
+		p.Contents = []ResourceContents{}
+	}
+	return json.Marshal(p)
+}
+
 type ResourceUpdatedNotification struct {
 	Notification
 	Params struct {
